@@ -8,15 +8,18 @@ namespace Quanto
 
 /-- `y` (scale rescaled, then multiplied by the code) vs `r` (dequantized, then rescaled by `k`):
 both are two roundings away from the exact value `k·s·c` -/
-def specRescale (F : Fmt) (qmax : Rat) (k : Rat) (y r : FV) : Bool :=
+def specRescale2 (Fu Feta : Fmt) (qmax : Rat) (k : Rat) (y r : FV) : Bool :=
   match y, r with
   | .fin yq, .fin rq =>
     let ak := rabs k
     -- the absolute rounding of a (possibly subnormal) scale is amplified by the code, at most `qmax`
-    rabs (yq - rq) ≤ 5 * F.u * rabs rq + (qmax + 4 + ak + (if ak = 0 then 0 else 1 / ak)) * F.eta
+    rabs (yq - rq) ≤ 5 * Fu.u * rabs rq + (qmax + 4 + ak + (if ak = 0 then 0 else 1 / ak)) * Feta.eta
   | .nan, .nan => true
   | .pinf, .pinf => true
   | .ninf, .ninf => true
   | _, _ => false
+
+/-- single-format version (mul / div by a scalar) -/
+def specRescale (F : Fmt) (qmax : Rat) (k : Rat) (y r : FV) : Bool := specRescale2 F F qmax k y r
 
 end Quanto
